@@ -39,12 +39,15 @@ PREFIX_POOL = ["x", "ns0", "XTCE", "D", "U", "L", "R", "S", "P", "C", "E", "B", 
                "Context", "Calibrator", "x-t.c_e", "_x", "Size", "Fixed", "Term", "Spline", "Enumeration", "Long"]
 
 
+NSPELL = 7
+
+
 def spellings(rng):
     return [xmlgen.Spelling("prefix", "xtce"), xmlgen.Spelling("prefix", rng.choice(PREFIX_POOL)),
-            xmlgen.Spelling("default"), xmlgen.Spelling("none", extra_ns=False), xmlgen.Spelling("none", extra_ns=True)]
-    # (not reachable from here: one namespace under two prefixes inside one document — the requests carry the abstract
-    #  tree and a namespace map, the text is rebuilt from them with one prefix per namespace; `xmlgen.Spelling(mixed=True)`
-    #  can write such text, but nothing feeds it to the library yet. Recorded blind spot: seed C16-j1.)
+            xmlgen.Spelling("default"), xmlgen.Spelling("none", extra_ns=False), xmlgen.Spelling("none", extra_ns=True),
+            # one namespace under two prefixes inside one document: the namespace map of the request binds `alt` to the
+            # same namespace, and the implementation side spells some kinds of element with it (`xmlops.mix_prefixes`)
+            xmlgen.Spelling("prefix", "xtce", mixed=True), xmlgen.Spelling("default", mixed=True)]
 
 
 def load_item(xml, sp):
@@ -155,7 +158,7 @@ def oracle(line, out):
         return None
     rs = out[4:].split(" | ")
     tags = line  # the all-spellings request renders ONE document: every result must be the same definition
-    if len(rs) == 15 and "all" and len(t[2]) == 15:
+    if len(rs) == len(t[2]) and len(t[2]) == 3 * NSPELL:
         canon = {strip_ns_fields(r) for r in rs}
         if len(canon) != 1 or not rs[0].startswith("ok "):
             return False
